@@ -37,7 +37,7 @@ fn check_value(u: &Universe, ty: &Ty, v: u32, dv: &DV, input_len: usize, path: &
         | (Ty::Leaf(Leaf::BitSet), DV::V(u32::MAX, n))
         | (Ty::Leaf(Leaf::BitVec08), DV::V(u32::MAX, n))
         | (Ty::Leaf(Leaf::BitSet08), DV::V(u32::MAX, n)) => {
-            return Err(format!("bit container with {} elements returned from {} input bytes at {}", n[0].n(), input_len, here(path)));
+            return Err(format!("bit container with {} elements (storage for {}) returned from {} input bytes at {}", n[0].n(), n.get(1).map(|x| x.n()).unwrap_or(0), input_len, here(path)));
         }
         (Ty::Prim(_), _) | (Ty::Str, _) | (Ty::Unit, _) | (Ty::Leaf(_), _) => {}
         (Ty::Opt(a), DV::V(i, xs)) => {
@@ -181,10 +181,14 @@ pub fn judge(b: &Batch, ri: usize, c: Container, p: PathK, v: u32, input: &[u8])
         let mut cur = Cur::new(payload);
         cur.lenient = true;
         match u.dec(&t, file_version, &mut cur) {
-            Err(DecErr::HugeLen { declared, min_elem, .. }) => absurd = Some((declared, min_elem)),
+            Err(DecErr::HugeLen { declared, min_elem, .. }) => cur.huge.push((declared, 0, min_elem)),
             Err(DecErr::NoExp(_)) => unknown = true,
             _ => {}
         }
+        // every declared length along the way that the input cannot encode; one that would
+        // exhaust memory or time decides (see below)
+        let exhausting = |(n, _, m): &(u64, usize, usize)| *n >= (1 << 22) && (*m == 0 || (*n as u128) * (*m as u128) < (1u128 << 63));
+        absurd = cur.huge.iter().find(|h| exhausting(h)).or(cur.huge.first()).map(|(n, _, m)| (*n, *m));
     } else {
         unknown = true;
     }
